@@ -4,6 +4,7 @@ import (
 	"fmt"
 	"os"
 
+	"verif/internal/c01"
 	"verif/internal/c02"
 	"verif/internal/c03"
 	"verif/internal/c11"
@@ -11,6 +12,7 @@ import (
 )
 
 func init() {
+	monitors["C01"] = c01.Run
 	monitors["C02"] = c02.Run
 	monitors["C03"] = c03.Run
 	monitors["C11"] = c11.Run
